@@ -30,13 +30,13 @@ RULE = ("files: every sequence of record kinds of length 1..Lfull plus covering 
         "(file, offset) pairs")
 ASSUMPTIONS = ["a crash leaves a byte prefix of the file (append-only stream)",
                "record contents range over a finite family; offsets are exhaustive"]
-REQUIRED_CLASSES = ['offset-in-metadata', 'offset-on-record-boundary', 'offset-inside-numpy-payload', 'offset-last-byte',
+REQUIRED_CLASSES = ['opened-by-relative-name-then-directory-changed', 'offset-in-metadata', 'offset-on-record-boundary', 'offset-inside-numpy-payload', 'offset-last-byte',
                     'open-raises', 'iteration-raises', 'clean-end-after-prefix', 'yields-some-then-raises-or-ends',
                     'full-file', 'record-with-thousands-of-fits', 'same-source-twice', 'blank-padded-names', 'same-source-object-changed-in-place']
 TIMEOUT = {'quick': 300, 'thorough': 900}
 
-KINDS_QUICK = ['f0', 'f1m', 'f3m', 'f3', 'f1L', 'f3mx', 'f1D', 'f1mP', 'f1S']          # D: same source content as the record before it; P: blank-padded names; S: the very same Source object, changed in place
-KINDS_ALL = ['f0', 'f0m', 'f1', 'f1m', 'f3', 'f3m', 'f1L', 'f3mL', 'f3mx', 'f3x', 'f0L', 'f1mL', 'f1D', 'f3mD', 'f1mP', 'f3P', 'f1S', 'f3mS']
+KINDS_QUICK = ['f0', 'f1m', 'f3m', 'f3', 'f1L', 'f3mx', 'f1D', 'f1mP', 'f1S', 'f3mW']          # D: same source content as the record before it; P: blank-padded names; S: the very same Source object, changed in place
+KINDS_ALL = ['f0', 'f0m', 'f1', 'f1m', 'f3', 'f3m', 'f1L', 'f3mL', 'f3mx', 'f3x', 'f0L', 'f1mL', 'f1D', 'f3mD', 'f1mP', 'f3P', 'f1S', 'f3mS', 'f3mW', 'f1W']
 
 
 def setup(tier, seed):
@@ -125,7 +125,10 @@ def _record(kind, idx, meta):
         i.av = i.av.copy()
         i.av[0] = np.inf
     i.model_id = np.array([2, 0, 1][:n])
-    i.model_name = np.array(['model_c', 'model_a', 'model_b'][:n], dtype='U30') if 'P' not in kind else np.array(['model_c    ', 'model_a    ', 'model_b    '][:n], dtype='U30')
+    if 'W' in kind:        # names that spell out the parameters: 48 characters, the first 47 shared
+        i.model_name = np.array(['grid_model_with_all_its_parameters_spelled_out_' + c_ for c_ in 'cab'][:n])
+    else:
+        i.model_name = np.array(['model_c', 'model_a', 'model_b'][:n], dtype='U30') if 'P' not in kind else np.array(['model_c    ', 'model_a    ', 'model_b    '][:n], dtype='U30')
     i.model_fluxes = (np.arange(n * 3, dtype=float).reshape(n, 3) + 0.5 * idx) if 'm' in kind else None
     i.meta.model_dir, i.meta.filters, i.meta.extinction_law = meta
     return i
@@ -269,6 +272,13 @@ def run_case(ctx, case, rec, d):
     fin.close()
     if n_decoy != len(decoy):
         rec.violation('complete-read|count', {'decoy': True}, {'read': n_decoy, 'written': len(decoy)})
+    # the same decoy also sits under the same NAME in another directory: for every seventh offset the truncated file is opened
+    # by its relative name and the working directory is changed to that other directory before the records are read
+    import shutil as _sh
+    other_dir = os.path.join(d, 'elsewhere')
+    os.makedirs(other_dir, exist_ok=True)
+    _sh.copy(tpath, os.path.join(other_dir, 'cut.fitinfo'))
+    cwd0 = os.getcwd()
     offsets = [len(data)] + list(range(start, len(data)))
     big = 'part' in case
     if big:
@@ -288,11 +298,18 @@ def run_case(ctx, case, rec, d):
         got = []
         how = None
         got_meta = None
+        relative = (not big) and (t % 7 == 3 or t == len(data))
         try:
-            fin = FitInfoFile(tpath, 'r')
+            if relative:
+                os.chdir(d)
+                rec.cls('opened-by-relative-name-then-directory-changed')
+            fin = FitInfoFile('cut.fitinfo' if relative else tpath, 'r')
         except Exception as e:
             how = 'open-raises:' + type(e).__name__
             fin = None
+        finally:
+            if relative:
+                os.chdir(other_dir)
         if fin is not None:
             try:
                 got_meta = canon([fin.meta.model_dir, fin.meta.filters, fin.meta.extinction_law])
@@ -315,6 +332,7 @@ def run_case(ctx, case, rec, d):
                     fin.close()
                 except Exception:
                     pass
+        os.chdir(cwd0)
         rec.ev()
         rec.trans()
         rec.state(('big', t) if big else hashlib.sha1(data[:t]).digest())       # a state is a distinct byte prefix
